@@ -122,6 +122,19 @@ def run(rep):
             items.append(v)
         pairs.append(grp)
     res = forms.replay(rep, items, "c19.gen")
+    # a relabelling keeps the letter-case pattern: if English prints its month names capitalised, so does every language
+    def month_cap(out):
+        ws = [w for w in (out or "").split() if w[:1].isalpha()]
+        return ws[0][:1].isupper() if ws else None
+    en_caps = {month_cap((res[i][0] or {}).get("out")) for i, it in enumerate(items) if it.get("lang") == "en" and (res[i][0] or {}).get("k") == "date"} - {None}
+    if len(en_caps) == 1:
+        want = en_caps.pop()
+        for i, it in enumerate(items):
+            slot = res[i][0] or {}
+            if it.get("lang") != "en" and slot.get("k") == "date" and month_cap(slot.get("out")) not in (None, want):
+                rep.violation({"check": "replay", "form": it["line"]["form"], "text": it["text"], "lang": it["lang"], "cfg": it["cfg"], "printed": slot.get("out"),
+                               "feat": {"form": it["line"]["form"], "failure": "month_capitalisation_differs_from_english", "lang": it["lang"]},
+                               "class": "month_capitalisation|%s|%s" % (it["lang"], (slot.get("out") or "").split()[1][:3] if len((slot.get("out") or "").split()) > 1 else "")})
     # identical printed output in every language for the word-free forms
     for grp in pairs:
         outs = [(items[i]["lang"], (res[i][0] or {}).get("out")) for i in grp]
